@@ -183,7 +183,16 @@ impl<'a> Gen<'a> {
 
     pub fn textx(&mut self) -> String {
         let n = self.r.range(1, self.cols + 2);
-        (0..n).map(|_| self.special_char()).collect()
+        let mut s = String::new();
+        let mut prev = self.special_char();
+        for _ in 0..n {
+            // runs of the same special character (replacement characters, combining marks ...)
+            if !self.r.chance(1, 4) {
+                prev = if self.r.chance(1, 12) { '\u{fffd}' } else { self.special_char() };
+            }
+            s.push(prev);
+        }
+        s
     }
 
     pub fn c0(&mut self) -> String {
